@@ -171,7 +171,7 @@ func (cp *composer) value(data []byte, depth int, inHandler bool) (val interface
 
 // C08: offsets compose.
 func RunC08(c *Ctx) {
-	c.RunDocs([]string{"W3", "W1", "W4", "W2small", "W2T"}, func(cs *h.Case) {
+	c.RunDocs([]string{"W3", "W1", "W4", "W2small", "W2T", "W1R"}, func(cs *h.Case) {
 		if cs.Deep {
 			c.Rec.C("skipped_nesting_beyond_10000")
 			return
